@@ -12,7 +12,7 @@ Inductive meth :=
 
 Definition zrange (lo hi x : Z) : bool := ((lo <=? x) && (x <=? hi))%Z.
 
-(* the values the Rust parameter type admits *)
+(* the values the Rust parameter type allows *)
 Definition arg_ok (m : meth) : bool :=
   match m with
   | MU8 x => x <? 256 | MU16 x => x <? 65536 | MU32 x => x <? 4294967296
